@@ -22,7 +22,7 @@ TIERS = {
     "quick": {"runs": 700, "max_wall": 240, "minimise_s": 25, "chunk": 20},
     "thorough": {"runs": 30000, "max_wall": 3000, "minimise_s": 60, "chunk": 50},
 }
-FAULT_KINDS = ["request dropped", "response dropped", "duplicated frame", "delayed frame (reordering across nodes)", "corrupt HEX file"]
+FAULT_KINDS = ["request dropped", "response dropped", "duplicated frame", "delayed frame (reordering across nodes)", "corrupt HEX file", "sparse HEX file (address gap = 0xFF), non-zero base address"]
 REAL = ["mysensors.ota (prepare_fw, respond_fw, respond_fw_config, load_fw, make_update)", "mysensors.task.update_fw (sync + asyncio executor)",
         "crcmod, intelhex", "pump / reader / handlers"]
 STUBS = ["radio link and bootloader nodes (simulated peers)", "serial port / socket / asyncio transports", "disk (SimFS)", "clock"]
